@@ -1,4 +1,5 @@
 import DclabModel.Lemmas.Basin
+import DclabModel.Gen.BasinTable
 /-!
 # C14 — Basins are only followed when matching, acyclic and permitted
 
@@ -277,5 +278,168 @@ theorem F70_same_name_sibling_accepted :
           { files := [((0, 7), export1_70), ((1, 7), origin70)], urls := [], up := [] } [5] true c [1]
             fun _ => Res.empty)).data
       = [(5, [13])] := by decide
+
+/-! ## 8. `Basin.verify_basin`: decision table, histories of calls on one basin object -/
+
+/-- **verify_decision_table.**  One call of `verify_basin(run_identifier=run)` on a basin whose
+identifier has not been verified yet: the answer is `available ∧ (¬run ∨ identifiers match)`, and
+the flag `_measurement_identifier_verified` is set exactly when the identifiers were compared and
+match.  `identifiers match` is `idMatch` (table below). -/
+theorem verify_decision_table (r b : Option Ident) (m av run : Bool) :
+    (verifyBasin r b m av run false).1 = (av && (!run || idMatch r b m)) ∧
+    (verifyBasin r b m av run false).2 = (run && av && idMatch r b m) := by
+  rw [verifyBasin_fresh]; exact ⟨rfl, rfl⟩
+
+/-- **idMatch_table.**  The identifier rule, all four presence combinations: a referrer without
+identifier accepts everything; a referrer with identifier rejects a basin without one (F22);
+both present: equality for unmapped, `basin <+: referrer` (prefix) for mapped basins. -/
+theorem idMatch_table (r b : Ident) (ob : Option Ident) (m : Bool) :
+    idMatch none ob m = true ∧
+    idMatch (some r) none m = false ∧
+    (idMatch (some r) (some b) false = true ↔ r = b) ∧
+    (idMatch (some r) (some b) true = true ↔ b <+: r) := by
+  refine ⟨rfl, rfl, ?_, ?_⟩
+  · simp [idMatch]
+  · simp [idMatch, List.isPrefixOf_iff_prefix]
+
+/-- **verify_history_independent.**  However often and with whatever flags `verify_basin` is
+called on one basin object (availability may change between calls), every answer is the pure
+decision `available ∧ (¬run ∨ idMatch)`: the sticky flag never changes an answer. -/
+theorem verify_history_independent (r b : Option Ident) (m : Bool) (hist : List (Bool × Bool)) :
+    runVerifyBasin r b m false hist = hist.map fun c => c.1 && (!c.2 || idMatch r b m) :=
+  runVerifyBasin_pure r b m hist false (fun h => by cases h)
+
+/-- a basin that ever answers `True` to a call with `run_identifier=True` matches the referrer -/
+theorem verified_implies_matching (r b : Option Ident) (m : Bool) (hist : List (Bool × Bool))
+    (i : Nat) (av : Bool) (hc : hist[i]? = some (av, true))
+    (ht : (runVerifyBasin r b m false hist)[i]? = some true) : idMatch r b m = true := by
+  rw [verify_history_independent, List.getElem?_map, hc] at ht
+  simp only [Option.map_some, Bool.not_true, Bool.false_or, Option.some.injEq,
+    Bool.and_eq_true] at ht
+  exact ht.2
+
+example : runVerifyBasin (some [1, 2, 3]) (some [1, 2]) true false [(true, true), (false, true), (true, false)]
+    = [true, false, true] := by decide
+example : runVerifyBasin (some [1, 2, 3]) (some [1, 2]) false false [(true, false), (true, true)]
+    = [true, false] := by decide
+
+/-! ## 9. the order of `ds.basins` and which basin serves a feature -/
+
+/-- **basins_sorted_by_priority.**  The definitions are processed in non-decreasing priority
+(type, then format, then mapping): for any two positions `i < j` of the sorted list the earlier
+one is `prioLe` the later one. -/
+theorem basins_sorted_by_priority (l : List BDef) :
+    (sortBy prioLe l).Pairwise (fun a b => prioLe a b = true) :=
+  sortBy_pairwise prioLe_total (fun h1 h2 => prioLe_trans h1 h2) l
+
+/-- sorting neither drops nor invents a definition -/
+theorem basins_sort_perm (l : List BDef) : (sortBy prioLe l).Perm l := sortBy_perm l
+
+/-- **basins_order_deterministic.**  If no two definitions of a file share a priority key, the
+processing order does not depend on the order in which the file stores them (HDF5 iterates the
+group by key name = md5 of the definition text): any two storage orders give the same list. -/
+theorem basins_order_deterministic (l₁ l₂ : List BDef) (hp : l₁.Perm l₂)
+    (hanti : ∀ a ∈ l₁, ∀ b ∈ l₁, prioLe a b = true → prioLe b a = true → a = b) :
+    sortBy prioLe l₁ = sortBy prioLe l₂ := by
+  apply List.Perm.eq_of_pairwise (le := fun a b => prioLe a b = true)
+  · intro a b ha hb hab hba
+    have ha' : a ∈ l₁ := mem_sortBy.mp ha
+    have hb' : b ∈ l₁ := hp.mem_iff.mpr (mem_sortBy.mp hb)
+    exact hanti a ha' b hb' hab hba
+  · exact basins_sorted_by_priority l₁
+  · exact basins_sorted_by_priority l₂
+  · exact (sortBy_perm l₁).trans (hp.trans (sortBy_perm l₂).symm)
+
+/-- with ties the order *does* depend on the storage order (stable sort): witness -/
+theorem basins_order_ties_keep_storage_order :
+    (sortBy prioLe [⟨1, .file, .hdf5, [], none, none⟩, ⟨2, .file, .hdf5, [], none, none⟩]).map (·.key)
+      = [1, 2] ∧
+    (sortBy prioLe [⟨2, .file, .hdf5, [], none, none⟩, ⟨1, .file, .hdf5, [], none, none⟩]).map (·.key)
+      = [2, 1] := by decide
+
+/-- **first_match_wins.**  `ds[f]`: innate data wins over every basin; otherwise the data comes
+from the first basin — in the order internal basins, file basins, then all basins, each in
+priority order — whose `get_feature_data` succeeds, and every basin in front of it delivered
+nothing. -/
+theorem first_match_wins (ref : Node) (obs : List OB) (f : Feat) (r : List Row) (us : List Use)
+    (h : getData ref obs f = some (r, us)) :
+    (lk f ref.file.innate = some r ∧ us = []) ∨
+    (lk f ref.file.innate = none ∧ ∃ pre o post, passes obs = pre ++ o :: post ∧
+      OB.data ref o f = some (r, us) ∧ ∀ p ∈ pre, OB.data ref p f = none) := by
+  unfold getData at h
+  split at h
+  · next r' hr =>
+    simp only [Option.some.injEq, Prod.mk.injEq] at h
+    exact Or.inl ⟨by rw [hr, h.1], h.2.symm⟩
+  · next hn => exact Or.inr ⟨hn, firstSome_first h⟩
+
+/-- non-vacuity: a file basin is asked before a remote basin that sorts in front of nothing -/
+example : (passes [⟨⟨1, .remote, .http, [], none, none⟩, .remote, none, Res.empty, []⟩,
+                   ⟨⟨2, .file, .hdf5, [], none, none⟩, .file, none, Res.empty, []⟩]).map (·.d.key)
+    = [2, 1, 2] := by decide
+
+/-! ## 10. constants regenerated from the source on every run (`harness/c14.py:translate`) -/
+
+def typeIdx : BType → Nat
+  | .internal => 0 | .file => 1 | .remote => 2 | .other => 3
+def formatIdx : BFormat → Nat
+  | .h5dataset => 0 | .hdf5 => 1 | .http => 2 | .s3 => 3 | .dcor => 4 | .other => 5
+
+open DclabModel.Gen.BasinTable in
+/-- **tables_match_source.**  The model's class lookup and priority ranks are the ones of the
+imported dclab: (1) for every format string the registered basin class has the storage type
+`classType` says, and dclab registers no format the model does not know; (2) `typeRank` /
+`formatRank` order types / formats exactly like the characters `basin_priority_sorted_key`
+assigns; (3) the key is laid out type, format, mapping with `same` < `basinmap0` < … (what
+`prioLe` compares lexicographically). -/
+theorem tables_match_source :
+    (∀ f : BFormat, f ≠ .other → (classType f).map typeIdx = classTypeIds[formatIdx f]?) ∧
+    extraFormats = 0 ∧
+    (∀ a b : BType, decide (typeRank a < typeRank b) =
+      decide (typeKeyCodes.getD (typeIdx a) 0 < typeKeyCodes.getD (typeIdx b) 0)) ∧
+    (∀ a b : BFormat, decide (formatRank a < formatRank b) =
+      decide (formatKeyCodes.getD (formatIdx a) 0 < formatKeyCodes.getD (formatIdx b) 0)) ∧
+    keyLayoutOK = true := by
+  refine ⟨?_, by decide, ?_, ?_, by decide⟩
+  · intro f hf; cases f <;> first | (exact absurd rfl hf) | decide
+  · intro a b; cases a <;> cases b <;> decide
+  · intro a b; cases a <;> cases b <;> decide
+
+/-! ## 11. resource use: the number of opened datasets is NOT bounded by the number of definitions
+
+The cycle cut works on the keys of the current resolution *path*, so a dataset that is reachable
+over several paths is opened once per path.  In a chain of `k` diamonds
+`L0 → {a0, b0} → L1 → {a1, b1} → L2 …` the last file is opened `2^k` times.  Witness for `k = 2`
+(7 files, 8 definitions, 12 datasets opened) on the fuel-unrolled step function (`decide` does not
+reduce the well-founded `resolve`; `resolveN` with enough fuel is the same unrolling that
+`resolve_ind` describes).  Replayed on the real code: findings/C14-diamond-opens.md. -/
+
+def resolveN (w : World) (univ : List Feat) : Nat → Node → List Nat → Res
+  | 0, _, _ => Res.empty
+  | n + 1, node, ign =>
+    resolveStep w univ true node ign fun c => resolveN w univ n c (nextIgnored node ign)
+
+def fdef (key tgt : Nat) : BDef :=
+  { key := key, type := .file, format := .hdf5, locs := [.abs 0 tgt], feats := none, mapping := none }
+def fnode (bs : List BDef) : CFile :=
+  { rid := none, innate := [], maps := [], internal := [], basins := bs }
+
+/-- L0 = 0, a0 = 1, b0 = 2, L1 = 3, a1 = 4, b1 = 5, L2 = 6 -/
+def wDiamonds : World :=
+  { files := [((0, 0), fnode [fdef 1 1, fdef 2 2]), ((0, 1), fnode [fdef 3 3]),
+              ((0, 2), fnode [fdef 4 3]), ((0, 3), fnode [fdef 5 4, fdef 6 5]),
+              ((0, 4), fnode [fdef 7 6]), ((0, 5), fnode [fdef 8 6]), ((0, 6), fnode [])],
+    urls := [], up := [] }
+
+/-- **opens_not_bounded_by_definitions** (negation of the conjectured resource bound): 12 datasets
+are opened for 8 distinct definitions (6 distinct basin files); the last file alone 4 times.
+(`Res.opened` lists every verified file-type candidate twice — once as the candidate
+`verify_basin` opened, once as the dataset behind the listed basin; the real code opens it once
+and keeps it — hence `2 * …`.) -/
+theorem opens_not_bounded_by_definitions :
+    (resolveN wDiamonds [] 6 ⟨some (.abs 0 0), fnode [fdef 1 1, fdef 2 2]⟩ []).opened.length = 2 * 12 ∧
+    (allKeys wDiamonds).eraseDups.length = 8 ∧
+    ((resolveN wDiamonds [] 6 ⟨some (.abs 0 0), fnode [fdef 1 1, fdef 2 2]⟩ []).opened.filter
+      (· == .abs 0 6)).length = 2 * 4 := by decide
 
 end DclabModel.C14
